@@ -397,6 +397,32 @@ def judge(case, acc, ctx):
         try:
             if route == "mem":
                 data = sut.create_mem(desc)
+            elif case.get("load_early"):
+                # library use in two steps: the description is LOADED while older versions of the artifacts lie at the referenced paths; the
+                # artifacts are then rebuilt; the envelope is written - it describes the files as they are when it is written (every part
+                # of it the same files)
+                from suit_generator.envelope import SuitEnvelope
+
+                src, outp = os.path.join(d, f"root_in.{route}"), os.path.join(d, "root_in.suit")
+                sut.dump_desc(desc, src)
+                snap = {}
+                for root_, _, fns in os.walk(d):
+                    for fn in fns:
+                        fp = os.path.join(root_, fn)
+                        if fp != src and os.path.isfile(fp) and not os.path.islink(fp):
+                            with open(fp, "rb") as fh:
+                                snap[fp] = fh.read()
+                            if not fp.endswith(".suit"):
+                                with open(fp, "wb") as fh:
+                                    fh.write(bytes(reversed(snap[fp])) + b"older build")
+                env_ = SuitEnvelope()
+                env_.load(src, "AUTO")
+                for fp, content in snap.items():
+                    with open(fp, "wb") as fh:
+                        fh.write(content)
+                env_.dump(outp, "suit")
+                with open(outp, "rb") as fh:
+                    data = fh.read()
             else:
                 data = sut.create_file(desc, route, d, name="root_in")
         except boot.HarnessError:
@@ -405,7 +431,7 @@ def judge(case, acc, ctx):
             raised = e
         nforms = len(b.forms)
         nt = nforms >= 2 or b.depth >= 2 or any(isinstance(s, int) for s in b.sizes)
-        classes = [f"route:{route}", f"depth:{b.depth}"] + sorted(b.forms) + [f"style:{s}" for s in sorted(b.styles)]
+        classes = [f"route:{route}", f"depth:{b.depth}"] + (["loaded-before-the-artifacts-were-rebuilt"] if case.get("load_early") and route != "mem" else []) + sorted(b.forms) + [f"style:{s}" for s in sorted(b.styles)]
         acc.case(nt_key=(sorted(b.forms), sorted(map(str, b.sizes)), b.depth, sorted(b.styles), node["alg"]) if nt else None, classes=classes,
                  sample=case if len(json.dumps(case)) < 1800 else None, sample_key=f"{route}/d{b.depth}/{nforms // 3}")
         if raised is not None:
@@ -464,7 +490,7 @@ def run_shard(ctx, spec):
     acc = Acc()
     route = spec["route"]
     n = spec["n"] if not spec.get("guard_off") else max(5, spec["n"] // 8)
-    strat = node_s(spec["depth"]).map(lambda nd: {"node": nd, "route": route})
+    strat = node_s(spec["depth"]).map(lambda nd: {"node": nd, "route": route, "load_early": route != "mem" and len(json.dumps(nd)) % 3 == 0})
     run_given(ctx, acc, "files", strat, lambda c, a: judge(c, a, ctx), seed=ctx.seed * 1000 + spec["i"], n=n)
     return acc
 
@@ -482,7 +508,7 @@ def finalize(ctx, m, ev):
     c = m["counters"]
     ev["coverage"]["excluded_known"] = {"F9": c.get("excluded_known:F9", 0)}
     need = ["digest:file", "digest:file_direct", "digest:raw", "digest:envelope", "size:file", "size:file_direct", "size:raw", "size:envelope",
-            "payload:path", "payload:hex", "dep:inline", "dep:path", "wrapper-digest:file", "wrapper-digest:file_direct", "wrapper-digest:raw", "depth:3", "style:abs", "style:rel", "style:hexlike-name", "style:hexlike-envelope-ref", "style:symlink", "node:members-out-of-key-order", "dep-file:stale-digest", "dep-file:reordered", "route:json", "route:yaml"]
+            "payload:path", "payload:hex", "dep:inline", "dep:path", "wrapper-digest:file", "wrapper-digest:file_direct", "wrapper-digest:raw", "depth:3", "style:abs", "style:rel", "style:hexlike-name", "style:hexlike-envelope-ref", "style:symlink", "node:members-out-of-key-order", "dep-file:stale-digest", "dep-file:reordered", "route:json", "route:yaml", "loaded-before-the-artifacts-were-rebuilt"]
     for n in need:
         if not c.get(n):
             raise boot.HarnessError(f"interesting class {n} is empty")
